@@ -146,10 +146,7 @@ func oneHistory(rng *rand.Rand, h, cap, procs, nops, keys, vals int) (evs []conc
 	var cbs []concEvent
 	c.SetDelCallBackFn(func(key, value interface{}) {
 		s := atomic.AddInt64(&seq, 1)
-		ks, _ := key.(string)
-		if key == nil {
-			ks = "<nil>"
-		}
+		ks := lruKeyName(key)
 		_, v, _ := decVal(fmt.Sprint(value))
 		cbMu.Lock()
 		cbs = append(cbs, concEvent{Seq: s, E: "cb", Cap: cap, P: "none", Op: "none", K: ks, V: v, Res: "none", Dump: [][2]string{}, H: h})
@@ -187,10 +184,10 @@ func oneHistory(rng *rand.Rand, h, cap, procs, nops, keys, vals int) (evs []conc
 				ev := concEvent{E: "ret", Cap: cap, P: name, Op: op.op, K: "none", V: "none", Res: "none", Dump: [][2]string{}, H: h}
 				switch op.op {
 				case "Store":
-					c.Store(op.k, encVal(op.k, op.v))
+					c.Store(lruKey(op.k), encVal(op.k, op.v))
 					ev.Ok = true
 				case "Load":
-					val, hit := c.Load(op.k)
+					val, hit := c.Load(lruKey(op.k))
 					ev.Ok = hit
 					if hit {
 						kk, vv, good := decVal(fmt.Sprint(val))
@@ -201,7 +198,7 @@ func oneHistory(rng *rand.Rand, h, cap, procs, nops, keys, vals int) (evs []conc
 						}
 					}
 				case "Delete":
-					c.Delete(op.k)
+					c.Delete(lruKey(op.k))
 					ev.Ok = true
 				case "Len":
 					ev.N = c.Len()
@@ -371,7 +368,7 @@ func lruConcLong(args []string) error {
 		var cbMu sync.Mutex
 		cbBy := map[int64][][2]string{}
 		c.SetDelCallBackFn(func(key, value interface{}) {
-			ks, _ := key.(string)
+			ks := lruKeyName(key)
 			_, v, _ := decVal(fmt.Sprint(value))
 			st := atomic.LoadInt64(&cur)
 			cbMu.Lock()
@@ -412,10 +409,10 @@ func lruConcLong(args []string) error {
 					ev := lruEvent{E: "opx", Cap: cap, Op: op.op, K: op.k, V: op.v, Res: "none", Cb: [][2]string{}, Dump: [][2]string{}}
 					switch op.op {
 					case "Store":
-						c.Store(op.k, encVal(op.k, op.v))
+						c.Store(lruKey(op.k), encVal(op.k, op.v))
 						ev.Ok = true
 					case "Load":
-						val, hit := c.Load(op.k)
+						val, hit := c.Load(lruKey(op.k))
 						ev.Ok = hit
 						if hit {
 							kk, vv, good := decVal(fmt.Sprint(val))
@@ -426,7 +423,7 @@ func lruConcLong(args []string) error {
 							}
 						}
 					case "Delete":
-						c.Delete(op.k)
+						c.Delete(lruKey(op.k))
 						ev.Ok = true
 					case "Len":
 						ev.N = c.Len()
@@ -501,7 +498,7 @@ func lruHammer(args []string) error {
 		if *pair != "" { // targeted run: make hits (and therefore recency updates) the common case
 			for i := 1; i <= cap; i++ {
 				k := "k" + strconv.Itoa(i)
-				c.Store(k, k+"=v")
+				c.Store(lruKey(k), k+"=v")
 			}
 		}
 		for p := 0; p < *procs; p++ {
@@ -518,11 +515,11 @@ func lruHammer(args []string) error {
 					k := "k" + strconv.Itoa(1+rng.Intn(cap+3))
 					switch op {
 					case "Store":
-						c.Store(k, k+"=v")
+						c.Store(lruKey(k), k+"=v")
 					case "Load":
-						c.Load(k)
+						c.Load(lruKey(k))
 					case "Delete":
-						c.Delete(k)
+						c.Delete(lruKey(k))
 					case "Len":
 						if c.Len() > cap {
 							fmt.Println("HAMMER-FAIL len exceeds capacity")
